@@ -44,13 +44,33 @@ pub open spec fn only_listed_removed(o: Map<u32, Partition>, f: Map<u32, Partiti
             ==> f[k].segments@.contains(o[k].segments@[j])
 }
 
-// STUBS for the partition layer (C14's subject: unit retention proves these shapes of the real functions —
-// [C14.only.delete_segment.exact/.err], [C14.shape.delete_segment.found], [C14.shape.count], [C14.off.add.*]).
+// the partition-layer invariant under which unit retention proves Partition::delete_segment (there: segs_sorted / segs_wf; the same
+// text is repeated in units/retention/lemmas.rs for the link harnesses): segments strictly ordered by start offset; each segment's
+// message range is [start_offset, current_offset], fits the u32 of the index format, and no segment ends at u64::MAX
+pub open spec fn segs_strict(s: Seq<Segment>) -> bool {
+    forall|i: int, j: int| 0 <= i < j < s.len() ==> (#[trigger] s[i]).start_offset < (#[trigger] s[j]).start_offset
+}
+pub open spec fn seg_range_ok(s: Segment) -> bool {
+    s.start_offset <= s.current_offset && s.current_offset - s.start_offset < 0x1_0000_0000 && s.end_offset < u64::MAX
+}
+pub open spec fn segs_range_ok(s: Seq<Segment>) -> bool { forall|i: int| 0 <= i < s.len() ==> seg_range_ok(#[trigger] s[i]) }
+pub open spec fn parts_ok(m: Map<u32, Partition>) -> bool {
+    forall|k: u32| #[trigger] m.contains_key(k) ==> segs_strict(m[k].segments@) && segs_range_ok(m[k].segments@)
+}
+
+// STUBS for the partition layer (C14's subject). LINKED: unit retention proves exactly these two contracts of the real functions
+// (units/retention/lemmas.rs, harnesses [C14.link.topic_limit.delete_segment] / [C14.link.topic_limit.add_persisted_segment]; an
+// edit here has to be mirrored there).
 impl Partition {
-    // real: Segment::delete + `segments.retain(|s| s.start_offset != start_offset)`; Err(SegmentNotFound) if none
+    // real: Segment::delete + `segments.retain(|s| s.start_offset != start_offset)`; Err(SegmentNotFound) if none.
+    // The `requires` and the last `ensures` were added by the link: the real function is proved only for an ordered, range-consistent
+    // segment list (`current_offset - start_offset + 1` of Segment::get_messages_count must not wrap) — the stub had no precondition.
     #[verifier::external_body]
     pub fn delete_segment(&mut self, start_offset: u64) -> (r: Result<DeletedSegment, IggyError>)
+        requires
+            segs_strict(old(self).segments@), segs_range_ok(old(self).segments@),
         ensures
+            segs_strict(final(self).segments@) && segs_range_ok(final(self).segments@),
             final(self).partition_id == old(self).partition_id,
             forall|j: int| 0 <= j < old(self).segments@.len() && (#[trigger] old(self).segments@[j]).start_offset != start_offset
                 ==> final(self).segments@.contains(old(self).segments@[j]),
@@ -67,6 +87,10 @@ impl Partition {
             final(self).partition_id == old(self).partition_id,
             forall|j: int| 0 <= j < old(self).segments@.len() ==> final(self).segments@.contains(#[trigger] old(self).segments@[j]),
             forall|j: int| 0 <= j < final(self).segments@.len() ==> old(self).segments@.contains(#[trigger] final(self).segments@[j]) || final(self).segments@[j].end_offset == 0,
+            // (added by the link, so that the invariant delete_segment requires survives the replacement of an emptied partition's segments)
+            segs_range_ok(old(self).segments@) ==> segs_range_ok(final(self).segments@),
+            (segs_strict(old(self).segments@) && forall|i: int| 0 <= i < old(self).segments@.len() ==> (#[trigger] old(self).segments@[i]).start_offset < start_offset)
+                ==> segs_strict(final(self).segments@),
     { unimplemented!() }
 }
 
